@@ -50,6 +50,8 @@ REQUIRED_BRANCHES = ['ineligible_skipped', 'all_eligible', 'nmin_zero', 'conv_ye
                      'end_eof_newline', 'end_eof_no_newline', 'end_blank_line',
                      'record_zero_fits', 'singular_source_fitted',
                      'law_wav_micron', 'law_wav_other_unit', 'law_chi_cm2_g', 'law_chi_other_unit',
+                     'consecutive_fits', 'refit_aps_unit', 'refit_dist_unit', 'refit_av', 'refit_nmin_sel', 'refit_subset',
+                     'duplicate_photometry', 'duplicate_adjacent', 'duplicate_apart',
                      'pkg_indep', 'pkg_dep', 'pkg_cube', 'filter_by_wavelength', 'data_path', 'data_handle',
                      'rw_nan', 'rw_inf', 'rw_zero_fits', 'rw_fluxes', 'rw_no_fluxes',
                      'rw_share_source_buffer', 'rw_share_same_info_keep', 'rw_share_array_inplace',
@@ -203,11 +205,52 @@ def gen_fit_case(rng, directed=None):
     if directed.get('force_singular') and n_min <= 1:
         nds[0] = rng.choice([0, 1]) if n_min == 0 else 1
     sources = [gen_source(rng, pkg, i, nds[i]) for i in range(nl)]
+    # duplicated photometry: byte-identical flags / fluxes / errors under another name and position,
+    # adjacent or further down, 1-2 extra copies
+    dup = directed['dup'] if 'dup' in directed else (rng.random() < 0.3)
+    if dup and len(sources) <= 10:
+        cand = [i for i, n in enumerate(nds) if n >= n_min] or [0]
+        i0 = rng.choice(cand)
+        for c in range(rng.choice([1, 1, 2])):
+            cp = dict(sources[i0])
+            cp['name'] = 'dup%d_of_%s' % (c, sources[i0]['name'])
+            cp['x'] = round(rng.uniform(0, 360), 5)
+            cp['y'] = round(rng.uniform(-90, 90), 5)
+            if dup == 'adjacent' or (dup is True and rng.random() < 0.5):
+                pos = i0 + 1
+            else:
+                pos = rng.randint(min(i0 + 2, len(sources)), len(sources))
+            sources.insert(pos, cp)
     sel = directed.get('sel') or gen_selector(rng, nm=len(pkg['models']))
-    return dict(kind='fit', pkg=pkg, sources=sources, n_min=n_min, sel=sel,
+    case = dict(kind='fit', pkg=pkg, sources=sources, n_min=n_min, sel=sel,
                 conv=directed['conv'] if 'conv' in directed else rng.random() < 0.5,
                 ending=directed.get('ending') or rng.choice(ENDINGS),
-                data_as=directed.get('data_as') or rng.choice(['path', 'path', 'handle']))
+                data_as=directed.get('data_as') or rng.choice(['path', 'path', 'handle']), dup=bool(dup))
+    # 1-2 further fit() calls on the SAME package in the same process, with varied arguments
+    nfu = directed['followups'] if 'followups' in directed else rng.choice([0, 0, 1, 2])
+    fus = []
+    kinds = list(directed.get('fu_kinds') or [])
+    for j in range(nfu):
+        kind = kinds[j] if j < len(kinds) else rng.choice(['aps_unit', 'dist_unit', 'av', 'nmin_sel', 'subset', 'same'])
+        fu = dict(kind=kind)
+        if kind == 'aps_unit':
+            fu['aps_unit'] = rng.choice(['arcmin', 'deg'])           # same numbers, other unit
+        elif kind == 'dist_unit':
+            fu['dist_unit'] = 'Mpc'                                  # (pc would fall below the aperture table: C13's domain)
+        elif kind == 'av':
+            fu['av'] = [pkg['av'][0] + 1., round(pkg['av'][1] + rng.uniform(1, 9), 1)]
+        elif kind == 'nmin_sel':
+            fu['n_min'] = rng.choice([0, 1, 2, 3])
+            fu['sel'] = gen_selector(rng, nm=len(pkg['models']))
+            fu['conv'] = rng.random() < 0.5
+        elif kind == 'subset':
+            keep = sorted(rng.sample(range(nb), rng.randint(2, nb - 1)))
+            fu['subset'] = keep
+            fu['n_min'] = rng.choice([0, 1, 2])
+        fus.append(fu)
+    if fus:
+        case['followups'] = fus
+    return case
 
 
 def _sp(x):
@@ -328,10 +371,19 @@ def gen_cases(seed, tier):
                      dict(variant='cube', n_min=3, data_as='path', conv=True), dict(variant='cube', n_min=2, sel=['F', 9.], data_as='handle'),
                      dict(variant='indep', n_min=3, data_as='handle', law_units=['AA', 'm2/kg']),
                      dict(variant='dep', n_min=3, law_units=['nm', 'cm2/g']), dict(variant='cube', n_min=3, law_units=['cm', 'm2/kg']),
-                     dict(variant='indep', n_min=2, law_units=['micron', 'cm2/g'])])
+                     dict(variant='indep', n_min=2, law_units=['micron', 'cm2/g']),
+                     dict(variant='dep', n_min=2, followups=2, fu_kinds=['aps_unit', 'dist_unit'], all_eligible=True),
+                     dict(variant='indep', n_min=2, followups=2, fu_kinds=['aps_unit', 'av'], all_eligible=True),
+                     dict(variant='dep', n_min=2, followups=2, fu_kinds=['nmin_sel', 'subset'], all_eligible=True),
+                     dict(variant='cube', n_min=2, followups=2, fu_kinds=['dist_unit', 'same'], all_eligible=True),
+                     dict(variant='indep', n_min=2, n_lines=4, all_eligible=True, dup='adjacent'),
+                     dict(variant='indep', n_min=2, n_lines=6, all_eligible=True, dup='apart'),
+                     dict(variant='dep', n_min=2, n_lines=3, all_eligible=True, dup='adjacent', followups=1, fu_kinds=['same'])])
     for dsp in directed_fit:
         dsp.setdefault('variant', 'indep')
         dsp.setdefault('data_as', 'path')
+        dsp.setdefault('followups', 0)
+        dsp.setdefault('dup', False)
     for dsp in directed_fit:
         yield gen_fit_case(case_rng(seed, PID, i), dsp)
         i += 1
@@ -455,14 +507,13 @@ def build_pkg(pkg, d, full):
     return fnames, ext
 
 
-def make_expected_fitter(pkg, d, fnames, ext):
+def make_expected_fitter(pkg, d, fnames, ext, cp=None):
     """the object interface with the settings fit() uses (its Fitter default `use_memmap=True` matters for
-    version-2 packages only: model fluxes are then held in float32)"""
-    from astropy import units as u
+    version-2 packages only: model fluxes are then held in float32); a NEW Fitter for every call"""
     from sedfitter.fit import Fitter
+    aps, dist, av, idx = call_quantities(pkg, cp)
     with common.quiet():
-        return Fitter(fnames, np.array(pkg['aps'], dtype=float) * u.arcsec, d, extinction_law=ext,
-                      av_range=tuple(pkg['av']), distance_range=np.array(pkg['dist'], dtype=float) * u.kpc,
+        return Fitter([fnames[j] for j in idx], aps, d, extinction_law=ext, av_range=av, distance_range=dist,
                       use_memmap=(pkg.get('variant') == 'cube'))
 
 
@@ -477,16 +528,26 @@ def write_data(path, lines, ending):
         f.write(text)
 
 
-def run_fit(pkg, d, fnames, ext, data, out, n_min, sel, conv, data_as='path'):
-    import sedfitter
+def call_quantities(pkg, cp=None):
+    """(apertures, distance_range, av_range, filter subset) of one fit()/Fitter call; `cp` varies the base call:
+    same aperture / distance NUMBERS in another unit, another av_range, a subset of the filters"""
     from astropy import units as u
+    cp = cp or {}
+    idx = cp.get('subset') or list(range(len(pkg['aps'])))
+    aps = np.array([pkg['aps'][j] for j in idx], dtype=float) * getattr(u, cp.get('aps_unit', 'arcsec'))
+    dist = np.array(pkg['dist'], dtype=float) * getattr(u, cp.get('dist_unit', 'kpc'))
+    return aps, dist, tuple(cp.get('av', pkg['av'])), idx
+
+
+def run_fit(pkg, d, fnames, ext, data, out, n_min, sel, conv, data_as='path', cp=None):
+    import sedfitter
     if data_as == 'handle':
         with open(data, 'r') as fh:
-            return run_fit(pkg, d, fnames, ext, fh, out, n_min, sel, conv)
+            return run_fit(pkg, d, fnames, ext, fh, out, n_min, sel, conv, cp=cp)
+    aps, dist, av, idx = call_quantities(pkg, cp)
     with common.quiet():
-        sedfitter.fit(data, fnames, np.array(pkg['aps'], dtype=float) * u.arcsec, d, out, n_data_min=n_min,
-                      extinction_law=ext, av_range=tuple(pkg['av']),
-                      distance_range=np.array(pkg['dist'], dtype=float) * u.kpc,
+        sedfitter.fit(data, [fnames[j] for j in idx], aps, d, out, n_data_min=n_min,
+                      extinction_law=ext, av_range=av, distance_range=dist,
                       output_format=(sel[0], sel[1]), output_convolved=conv)
 
 
@@ -551,8 +612,8 @@ def diff_meta(meta, model_dir, fnames, aps, wavs, ext):
                 return 'wavelength-type filter came back with a name: %r' % (f,)
             if not (isinstance(f.get('wav'), u.Quantity) and f['wav'].unit == n.unit and float(f['wav'].value) == float(n.value)):
                 return 'filter wavelength %r != %r' % (f.get('wav'), n)
-        if float(f['aperture_arcsec']) != float(a):
-            return 'filter aperture %r != %r' % (f['aperture_arcsec'], a)
+        if not common.close(float(f['aperture_arcsec']), float(a), 1e-12):
+            return 'filter aperture %r arcsec != %r arcsec' % (f['aperture_arcsec'], a)
         if not (isinstance(f['wav'], u.Quantity) and f['wav'].unit == u.micron):
             return 'filter wavelength %r is not a Quantity in micron' % (f['wav'],)
     return diff_law(meta.extinction_law, ext)
@@ -617,33 +678,82 @@ def ask_records(n_min, conv, toks):
 
 # ----------------------------------------------------------------------------- kind: fit
 
+ARCSEC = {'arcsec': 1., 'arcmin': 60., 'deg': 3600.}
+
+
 def run_fit_case(case, use_model=True):
-    from sedfitter.source import Source
+    """the base fit() call of the case and then its follow-up calls, all in this process on ONE package"""
     pkg = case['pkg']
     d = tempfile.mkdtemp(prefix='c10f_')
     branches = set()
     try:
         fnames, ext = build_pkg(pkg, d, full=False)
-        lines = [source_line(s) for s in case['sources']]
-        data = os.path.join(d, 'data.txt')
-        out = os.path.join(d, 'out.fitinfo')
-        write_data(data, lines, case['ending'])
-        n_min, sel, conv = case['n_min'], case['sel'], case['conv']
-        nds = [sum(1 for f in s['flags'] if f in (1, 4)) for s in case['sources']]
-        elig = [i for i, n in enumerate(nds) if n >= n_min]
-        if not elig:
+        base = dict(n_min=case['n_min'], sel=case['sel'], conv=case['conv'])
+        calls = [base]
+        for fu in case.get('followups', []):
+            cp = dict(base)
+            cp.update(fu)
+            calls.append(cp)
+        first = None
+        n_done = 0
+        for ci, cp in enumerate(calls):
+            r = one_fit_call(case, cp, ci, d, fnames, ext, use_model, branches)
+            if r is None:
+                continue                      # this follow-up has no eligible source: nothing is claimed
+            if not r.ok:
+                if ci:
+                    r.detail = ('fit() call %d of %d on the same package in one process (%s; earlier calls: %r): '
+                                % (ci + 1, len(calls), _short(cp, 300), [_short(c, 200) for c in calls[:ci]])) + r.detail
+                return r
+            n_done += 1
+            if first is None:
+                first = r
+            if ci:
+                branches.add('refit_' + cp.get('kind', 'same'))
+        if first is None:
             return CaseResult(True, detail='outside the quantifier (no eligible source)', nontrivial=False,
                               key=common.canon_hash(case))
+        if n_done > 1:
+            branches.add('consecutive_fits')
+        first.branches = sorted(branches)
+        if first.sample is not None:
+            first.sample['fit_calls'] = n_done
+        return first
+    finally:
+        shutil.rmtree(d, ignore_errors=True)
+
+
+def one_fit_call(case, cp, ci, d, fnames_all, ext, use_model, branches):
+    """one fit() call (parameters `cp`) -> read back -> compared with a NEW Fitter's results for these very
+    arguments, record by record, and with the header these arguments imply.  None when no line is eligible."""
+    from sedfitter.source import Source
+    pkg = case['pkg']
+    if True:
+        aps_q, dist_q, av, idx = call_quantities(pkg, cp)
+        fnames = [fnames_all[j] for j in idx]
+        srcs = case['sources']
+        if cp.get('subset'):
+            srcs = [dict(s, flags=[s['flags'][j] for j in idx], flux=[s['flux'][j] for j in idx],
+                         err=[s['err'][j] for j in idx]) for s in srcs]
+        lines = [source_line(s) for s in srcs]
+        data = os.path.join(d, 'data%d.txt' % ci)
+        out = os.path.join(d, 'out%d.fitinfo' % ci)
+        write_data(data, lines, case['ending'])
+        n_min, sel, conv = cp['n_min'], cp['sel'], cp['conv']
+        nds = [sum(1 for f in s['flags'] if f in (1, 4)) for s in srcs]
+        elig = [i for i, n in enumerate(nds) if n >= n_min]
+        if not elig:
+            return None
         # ---- implementation
         try:
-            run_fit(pkg, d, fnames, ext, data, out, n_min, sel, conv, data_as=case.get('data_as', 'path'))
+            run_fit(pkg, d, fnames_all, ext, data, out, n_min, sel, conv, data_as=case.get('data_as', 'path'), cp=cp)
             meta, recs = read_fit_file(out)
         except Exception as e:
             return CaseResult(False, violates=True, branches=branches,
                               detail='fit()/FitInfoFile raised %s: %s on %d lines, n_data=%r, n_data_min=%d, selector=%r'
                                      % (type(e).__name__, e, len(lines), nds, n_min, sel))
         # ---- the property's right-hand side: object interface on the same lines
-        fitter = make_expected_fitter(pkg, d, fnames, ext)
+        fitter = make_expected_fitter(pkg, d, fnames_all, ext, cp)
         exp = []
         for i in elig:
             s = Source.from_ascii(lines[i])
@@ -654,8 +764,9 @@ def run_fit_case(case, use_model=True):
             info.keep((sel[0], sel[1]))
             exp.append(info)
         got_names = [r.source.name for r in recs]
-        exp_names = [case['sources'][i]['name'] for i in elig]
-        setting = 'n_data per line=%r n_data_min=%d selector=%r output_convolved=%r ending=%s' % (nds, n_min, sel, conv, case['ending'])
+        exp_names = [srcs[i]['name'] for i in elig]
+        setting = ('n_data per line=%r n_data_min=%d selector=%r output_convolved=%r ending=%s apertures=%s distance_range=%s av_range=%r'
+                   % (nds, n_min, sel, conv, case['ending'], aps_q, dist_q, av))
         if got_names != exp_names:
             return CaseResult(False, violates=True, branches=branches,
                               detail='records in the file: %r; eligible lines in input order: %r; %s' % (got_names, exp_names, setting))
@@ -668,12 +779,13 @@ def run_fit_case(case, use_model=True):
                 return CaseResult(False, violates=True, branches=branches,
                                   detail='record of %s: predicted fluxes present=%r but output_convolved=%r'
                                          % (e.source.name, r.model_fluxes is not None, conv))
-        dm = diff_meta(meta, d, fnames, pkg['aps'], pkg['wavs'], ext)
+        aps_arcsec = [pkg['aps'][j] * ARCSEC[cp.get('aps_unit', 'arcsec')] for j in idx]
+        dm = diff_meta(meta, d, fnames, aps_arcsec, [pkg['wavs'][j] for j in idx], ext)
         if not dm and exp:
             # exactly the metadata the object interface attaches (filter wavelengths / apertures / law: units and values)
             dm = meta_diff_by_value(meta, exp[0].meta)
         if dm:
-            return CaseResult(False, violates=True, branches=branches, detail='metadata read back changed: ' + dm)
+            return CaseResult(False, violates=True, branches=branches, detail='metadata read back differs from the arguments of this call: ' + dm + '; ' + setting)
         for r in recs:
             dmv = meta_diff_by_value(r.meta, meta)
             if dmv:
@@ -706,12 +818,17 @@ def run_fit_case(case, use_model=True):
         if any(not isinstance(f, str) for f in fnames):
             branches.add('filter_by_wavelength')
         branches.add('data_' + case.get('data_as', 'path'))
+        phot = [(tuple(srcs[i]['flags']), tuple(srcs[i]['flux']), tuple(srcs[i]['err'])) for i in elig]
+        if len(set(phot)) < len(phot):
+            branches.add('duplicate_photometry')
+            if any(phot[j] == phot[j + 1] for j in range(len(phot) - 1)):
+                branches.add('duplicate_adjacent')
+            if any(phot[j] == phot[l] for j in range(len(phot)) for l in range(j + 2, len(phot))):
+                branches.add('duplicate_apart')
         sample = dict(kind='fit', package=pkg.get('variant', 'indep'), data_as=case.get('data_as', 'path'), n_lines=len(nds), n_data=nds, n_data_min=n_min, selector=sel, output_convolved=conv,
                       ending=case['ending'], records=got_names, n_fits=[int(r.n_fits) for r in recs])
         return CaseResult(True, branches=branches, key=common.canon_hash(case),
                           nontrivial=(len(elig) < len(nds) or len(elig) > 1), sample=sample)
-    finally:
-        shutil.rmtree(d, ignore_errors=True)
 
 
 # ----------------------------------------------------------------------------- kind: rw
